@@ -540,5 +540,6 @@ func (fr *Frame) execNext(ins *ssa.Next, st *State) {
 	v := Val{t: vc.define("v", S.sortOf(mt.Elem()), fmt.Sprintf("(select %s %s)", vc.mapVals(st, mt, m), k)), typ: mt.Elem()}
 	// ghost: the previous "seen" stays available as seen_before; seen is updated when a key is produced
 	st.ghosts[seenName] = TVal{vc.define("seen", "(Array "+ks+" Bool)", ite(okc, fmt.Sprintf("(store %s %s true)", seen.t, k), seen.t)), seen.typ}
+	st.ghosts["key"+strings.TrimPrefix(seenName, "seen")] = TVal{k, mt.Key()}
 	fr.env[ins] = Val{tuple: []Val{{t: okc, typ: tBool}, {t: k, typ: mt.Key()}, v}}
 }
